@@ -139,6 +139,11 @@ ZTW = [ksrxml.mk_key(_ca, alg=13, ttl=3600, ident="ZSK-twin-a"), ksrxml.mk_key(_
 P.save()
 run("colliding-key-tags", {1: {"publish": ["ksk_ec"], "sign": ["ksk_ec"], "revoke": []}, 2: {"publish": ["ksk_ec", "ksk_rc"], "sign": ["ksk_ec"], "revoke": []}}, [ZTW, ZTW + [ZEC]])
 run("colliding-key-tags", {1: {"publish": ["ksk_ec"], "sign": ["ksk_ec"], "revoke": ["ksk_rc"]}}, [list(reversed(ZTW))])
+# tokens differ in how they report the public exponent: 01 00 01 or 00 01 00 01 is the same key
+for pad in (1, 3):
+    mods_p = [[{"id": 0, "objs": sum((S.pair(k["id"], k, attr_pad=pad) for k in K.values()), [])}]]
+    run("token-exponent-with-leading-zeros", {1: {"publish": ["ksk_a", "ksk_b"], "sign": ["ksk_a"], "revoke": []},
+                                              2: {"publish": ["ksk_b"], "sign": ["ksk_a", "ksk_b"], "revoke": ["ksk_a"]}}, [[Z[0]], [Z[0]]], mods=mods_p, desc={"leading_zero_octets": pad})
 for t_ in (0, 1, 2**31 - 1):
     run("configured-ttl", {1: {"publish": ["ksk_a"], "sign": ["ksk_a"], "revoke": []}}, [[Z[0]]], ttl=t_)
 # schema missing a slot
